@@ -54,7 +54,30 @@ type TotalCase struct {
 
 var mutKinds = []string{"nullNode", "nullBranching", "nullBranchList", "nullBranch", "nullAction", "nullGuard", "nullPattern",
 	"badInterpreter", "badGuardInterpreter", "badSyntax", "jsonSyntax", "badBranchType", "emptyNodeName", "badTarget", "badErrorNode",
-	"numberSource", "objectSource", "arraySource", "guardObjectSource", "guardArraySource", "guardNumberSource", "guardNullSource", "bootObjectSource", "stringNode", "listNodes", "stringBranches", "numberPattern", "nullNodes", "noNodes", "badJSONPattern", "nullSource", "knotAction", "knotAction", "knotGuard"}
+	"numberSource", "objectSource", "arraySource", "guardObjectSource", "guardArraySource", "guardNumberSource", "guardNullSource", "bootObjectSource", "stringNode", "listNodes", "stringBranches", "numberPattern", "nullNodes", "noNodes", "badJSONPattern", "nullSource", "knotAction", "knotAction", "knotGuard", "oddScript", "oddScript", "oddGuardScript"}
+
+var oddScripts = [][2]string{
+	{"ecmascript-ext", `_.match({"a":"?x"}, {"a":1}, 7); return _.bindings;`},
+	{"ecmascript-ext", `_.match({"a":"?x"}, {"a":1}, null); return _.bindings;`},
+	{"ecmascript-ext", `_.match({"a":"?x"}, {"a":1}, [1]); return _.bindings;`},
+	{"goja", `_.match(); return _.bindings;`},
+	{"goja", `_.match({"a":["?x","?y"]}, {"a":[1]}, {}); return _.bindings;`},
+	{"ecmascript-ext", `_.cronNext(42); return _.bindings;`},
+	{"ecmascript-ext", `_.cronNext("not a cron expression"); return _.bindings;`},
+	{"ecmascript-ext", `return {r: _.randstr(), e: _.esc ? _.esc("a b") : null};`},
+	{"ecmascript", `return Object.defineProperty({}, "a", {enumerable: true, get: function() { throw new Error("boom"); }});`},
+	{"ecmascript", `var bs = _.bindings; bs.t = {toJSON: function() { throw new Error("no json"); }}; return bs;`},
+	{"ecmascript", `_.out(Object.defineProperty({}, "a", {enumerable: true, get: function() { throw new Error("boom"); }})); return _.bindings;`},
+	{"ecmascript", `return function() {};`},
+	{"ecmascript", `return new Date(0);`},
+	{"ecmascript", `var a = []; a[200000] = 1; return {a: a};`},
+	{"ecmascript", `return {f: function() {}, u: undefined, s: Symbol ? "sym" : 1};`},
+	{"ecmascript", `_.out(undefined); _.out(function() {}); return _.bindings;`},
+	{"ecmascript", `throw null;`},
+	{"ecmascript", `throw {toString: function() { throw new Error("again"); }};`},
+	{"ecmascript", `_.bindings = null; return _.bindings;`},
+	{"ecmascript", `return new Proxy ? new Proxy({}, {ownKeys: function() { throw new Error("keys"); }}) : {};`},
+}
 
 const knotSource = `var bs = _.bindings; bs.knot = {}; bs.knot.self = bs.knot; bs.ring = [1]; bs.ring.push(bs.ring); return bs;`
 
@@ -96,7 +119,7 @@ func genTotal(t *rapid.T) TotalCase {
 		for i := rapid.IntRange(0, 3).Draw(t, "nmut"); i > 0; i-- {
 			m := Mut{Kind: rapid.SampledFrom(mutKinds).Draw(t, fmt.Sprintf("mk%d", i)),
 				Node: rapid.SampledFrom(a.NodeNames()).Draw(t, fmt.Sprintf("mn%d", i)),
-				I:    rapid.IntRange(0, 2).Draw(t, fmt.Sprintf("mi%d", i))}
+				I:    rapid.IntRange(0, 59).Draw(t, fmt.Sprintf("mi%d", i))}
 			c.Muts = append(c.Muts, m)
 		}
 	}
@@ -216,6 +239,19 @@ func applyMut(doc map[string]interface{}, m Mut, yamlKeys bool) {
 		// serialised; nothing read from JSON looks like it)
 		if n != nil {
 			n["action"] = map[string]interface{}{"interpreter": "ecmascript", "source": knotSource}
+		}
+	case "oddScript":
+		// behaviours at the edge of the interpreter: helpers of the
+		// extended interpreter called with the wrong arguments, results
+		// whose export runs script code (getters, toJSON), odd returns
+		if n != nil {
+			src := oddScripts[m.I%len(oddScripts)]
+			n["action"] = map[string]interface{}{"interpreter": src[0], "source": src[1]}
+		}
+	case "oddGuardScript":
+		if br != nil {
+			src := oddScripts[m.I%len(oddScripts)]
+			br["guard"] = map[string]interface{}{"interpreter": src[0], "source": src[1]}
 		}
 	case "knotGuard":
 		if br != nil {
